@@ -32,6 +32,9 @@ def cli (args : String) : String :=
 
 def handle (toks : List String) : Option String :=
   match toks with
+  | ["lowertab"] =>
+    -- the whole table of characters changed by `char::to_lowercase` (compared with the toolchain)
+    some (",".intercalate (notLowerRanges.map fun r => toString r.1 ++ "-" ++ toString r.2))
   | ["cli", args] => some (cli args)
   | ["cli", args, _] => some (cli args)
   | ["lint", text] =>
